@@ -1,5 +1,6 @@
 import Driver.GraphIO
 import EchoVerif.Model.Root
+import EchoVerif.Model.RootAccum
 
 namespace Driver.C06
 open EchoVerif EchoVerif.Graph EchoVerif.Root Driver Driver.GraphIO
@@ -15,16 +16,25 @@ def root : P String := do
   done
   pure (rootsStr s (w, n))
 
-/-- `C06.ops <state> <ops> <root warp> <root node>`: ops applied to the store, then both roots. -/
+/-- the accumulator's own outcome on the op list (`SnapshotAccumulator::apply_ops` then `build`):
+    its state-root pre-image, or `panic` when one of its `assert!`/`panic!` sites fires -/
+def aopsStr (s : WState) (l : List Op) (r : NKey) : String :=
+  match (Acc.ofState s).applyOps l with
+  | some a' => s!"aops {(accPreimageOf a' r).render}"
+  | none => "aops panic"
+
+/-- `C06.ops <state> <ops> <root warp> <root node>`: ops applied to the store, then both roots;
+    and, for EVERY case (also when the store rejects), the accumulator's own outcome. -/
 def opsH : P String := do
   let s ← state
   let l ← ops
   let w ← id32
   let n ← id32
   done
+  let a := aopsStr s l (w, n)
   match applyOps s l with
-  | .ok s' => pure ("ok " ++ rootsStr s' (w, n))
-  | .error e => pure s!"err {errStr e}"
+  | .ok s' => pure ("ok " ++ rootsStr s' (w, n) ++ " " ++ a)
+  | .error e => pure s!"err {errStr e} {a}"
 
 /-- `C06.wsc <state>`: a columnar snapshot written and read back denotes the same state. -/
 def wsc : P String := do
